@@ -87,7 +87,11 @@ def _forwards_parameter(flow, e: ast.AST, depth: int = 0) -> bool:
     if depth > 4 or e is None:
         return False
     if isinstance(e, ast.Name):
-        return e.id in flow.fn.params
+        if e.id in flow.fn.params:
+            return True
+        # a local that only ever holds the caller's mapping (or the empty default for it)
+        ds = [d for d in flow.defs if d.var == e.id]
+        return bool(ds) and all(d.kind == "assign" and d.value is not None and _forwards_parameter(flow, d.value, depth + 1) for d in ds)
     if isinstance(e, ast.Dict):
         return all(k is None and _forwards_parameter(flow, v, depth + 1) for k, v in zip(e.keys, e.values))
     if isinstance(e, ast.Call):
